@@ -34,9 +34,12 @@ func c02Name(n string) ast.Expr { return &ast.Name{Id: ast.Identifier(n), Ctx: a
 
 type c02Gen struct {
 	nprobe int
-	hot    int // which inner slot gets a non-trivial statement
+	hot    int // which body of the outer statement gets a non-trivial inner statement
+	hot2   int // which body of the nested statement gets one (0 = none)
 	slot   int
+	slot2  int
 	depth  int
+	inFin  int // nesting of finally bodies being generated
 }
 
 func (g *c02Gen) probe() ast.Stmt {
@@ -46,9 +49,16 @@ func (g *c02Gen) probe() ast.Stmt {
 
 // inner statement placed in the middle of a body
 func (g *c02Gen) inner(inLoop bool, level int) []ast.Stmt {
-	g.slot++
-	if g.slot != g.hot {
-		return nil
+	if level == 1 {
+		g.slot++
+		if g.slot != g.hot {
+			return nil
+		}
+	} else {
+		g.slot2++
+		if g.slot2 != g.hot2 {
+			return nil
+		}
 	}
 	n := 3
 	if inLoop {
@@ -71,6 +81,8 @@ func (g *c02Gen) inner(inLoop bool, level int) []ast.Stmt {
 	case 3:
 		return []ast.Stmt{&ast.Break{}}
 	case 4:
+		// 'continue' is not allowed inside a finally clause (a compile-time error in 3.4): not part of the family
+		verifAssume(g.inFin == 0)
 		return []ast.Stmt{&ast.Continue{}}
 	}
 	return []ast.Stmt{g.compound(k-5, inLoop, level+1)}
@@ -98,10 +110,19 @@ func (g *c02Gen) compound(kind int, inLoop bool, level int) ast.Stmt {
 		h := c02Handlers[verifChoice("handler"+sfx, len(c02Handlers))]
 		return &ast.Try{Body: g.body(inLoop, level), Handlers: []*ast.ExceptHandler{{ExprType: c02Name(h), Body: g.body(inLoop, level)}}, Orelse: g.body(inLoop, level)}
 	case 4:
-		return &ast.Try{Body: g.body(inLoop, level), Finalbody: g.body(inLoop, level)}
+		b := g.body(inLoop, level)
+		g.inFin++
+		f := g.body(inLoop, level)
+		g.inFin--
+		return &ast.Try{Body: b, Finalbody: f}
 	case 5:
 		h := c02Handlers[verifChoice("handler"+sfx, len(c02Handlers))]
-		return &ast.Try{Body: g.body(inLoop, level), Handlers: []*ast.ExceptHandler{{ExprType: c02Name(h), Body: g.body(inLoop, level)}}, Finalbody: g.body(inLoop, level)}
+		b := g.body(inLoop, level)
+		hb := g.body(inLoop, level)
+		g.inFin++
+		f := g.body(inLoop, level)
+		g.inFin--
+		return &ast.Try{Body: b, Handlers: []*ast.ExceptHandler{{ExprType: c02Name(h), Body: hb}}, Finalbody: f}
 	default:
 		return &ast.With{Items: []*ast.WithItem{{ContextExpr: c02Name("m")}}, Body: g.body(inLoop, level)}
 	}
@@ -354,8 +375,8 @@ func c02Run(body []ast.Stmt) error {
 	return err
 }
 
-func c02Check(kind int, depth int, hot int) {
-	g := &c02Gen{hot: hot, depth: depth}
+func c02Check(kind int, depth int, hot, hot2 int) {
+	g := &c02Gen{hot: hot, hot2: hot2, depth: depth}
 	prog := []ast.Stmt{g.probe(), g.compound(kind, false, 1), g.probe()}
 	vm.VReset(2)
 	err := c02Run(prog)
@@ -394,5 +415,24 @@ func VerifC02Flow() {
 	depth := verifBound(1, 2)
 	// which of the (up to 3) bodies of the outer statement carries the inner statement
 	hot := 1 + verifChoice("hot", 3)
-	c02Check(kind, depth, hot)
+	c02Check(kind, depth, hot, 0)
+}
+
+// two levels of nesting: loop inside loop, try inside loop, loop inside try ... with
+// break / continue / raise placed in any body of the nested statement
+//
+//verif:property C02
+//verif:runinit github.com/go-python/gpython/vm.init#2
+//verif:expect ran
+//verif:maxpaths 60000 600000
+//verif:timeout 400 2400
+func VerifC02FlowNested() {
+	kind := verifChoice("kind", 7)
+	hot := 1 + verifChoice("hot", 3)
+	hot2 := 1 + verifChoice("hot2", 3)
+	if verifBound(0, 1) == 0 {
+		// quick: the outer statement is a loop or a try/finally (where break/continue/else interplay lives)
+		verifAssume(kind == 1 || kind == 2 || kind == 4)
+	}
+	c02Check(kind, 2, hot, hot2)
 }
